@@ -185,7 +185,7 @@ def step (c : CExpr → CExpr → Ordering) (ν : Ren) (st : BState) : Instr →
   | .index => some { st with idxs := st.idxs ++ [ν.idx st.idxs.length] }
   | .coeff m el sh => do
       let md ← st.meshes[m]?
-      pure { st.push (.term (.coeff (ν.coeff st.nCoeff) ⟨md, el⟩ sh)) with nCoeff := st.nCoeff + 1 }
+      pure { st.push (.term (.coeff (ν.coeff st.nCoeff) { mesh := md, elem := el } sh)) with nCoeff := st.nCoeff + 1 }
   | .const m sh => do
       let md ← st.meshes[m]?
       pure { st.push (.term (.const (ν.const st.nConst) md sh)) with nConst := st.nConst + 1 }
@@ -194,7 +194,7 @@ def step (c : CExpr → CExpr → Ordering) (ν : Ren) (st : BState) : Instr →
       pure (st.push (.term (.geo cl md sh)))
   | .arg n p m el sh => do
       let md ← st.meshes[m]?
-      pure (st.push (.term (.arg n p ⟨md, el⟩ sh)))
+      pure (st.push (.term (.arg n p { mesh := md, elem := el } sh)))
   | .lit v => some (st.push (.int v))
   | .flt n d => some (st.push (.real n d))
   | .plain cl k sh => some (st.push (.term (.plain cl k sh)))
@@ -236,7 +236,7 @@ structure IntegralSpec where
   itype : String
   mesh : Nat
   sub : SubId
-  metadata : List (String × String)
+  metadata : FormModel.Canon
   deriving Repr, Inhabited
 
 def BState.form (st : BState) (spec : List IntegralSpec) : Option CForm :=
